@@ -944,6 +944,9 @@ func checkIPv4(data string) bool {
 		if len(f) == 0 {
 			return false
 		}
+		if f[0] == '+' || f[0] == '-' {
+			return false // Atoi10 accepts signed numbers
+		}
 		number := std.Atoi10(f)
 		if number < 0 || 255 < number {
 			panic("not a byte")
